@@ -7,6 +7,16 @@ import random
 from . import rulesets, ptq, expand, session, core
 
 
+OMEN_MODELS = [
+    None,   # rulesets.DEFAULT_OMEN: lengths 2..3, LN levels 0..1
+    # lengths 2..5 on LN levels 0..3: a level >= 2 spans several lengths (cut/resume must move on to them)
+    dict(ngram=2, alphabet=['a', 'b'], ip={'a': 0, 'b': 1}, cp={'aa': 0, 'ab': 1, 'ba': 1, 'bb': 2},
+         ep={'a': 0, 'b': 0}, ln=[10, 0, 1, 2, 3]),
+    dict(ngram=3, alphabet=['a', 'b'], ip={'aa': 0, 'ab': 1, 'ba': 2}, cp={'aaa': 0, 'aab': 1, 'aba': 0, 'baa': 1, 'abb': 2, 'bab': 1},
+         ep={'aa': 0, 'ab': 0, 'ba': 0}, ln=[10, 10, 1, 0, 2]),
+]
+
+
 def make(rng, path, with_m=True, m_last=False):
     for attempt in range(200):
         terms = {
@@ -22,14 +32,16 @@ def make(rng, path, with_m=True, m_last=False):
         if with_m:
             base.append(('M', round(rng.uniform(0.2, 0.6), 6) if not m_last else 1e-6))
             omen_prob = [(1, round(rng.uniform(0.3, 0.9), 6)), (2, round(rng.uniform(0.01, 0.2), 6))]
+            if rng.random() < 0.6:
+                omen_prob.append((3, round(rng.uniform(0.001, 0.009), 6)))
             if rng.random() < 0.4:
                 omen_prob.insert(0, (0, round(rng.uniform(0.9, 1.0), 6)))
         base.sort(key=lambda x: -x[1])
-        rulesets.write_ruleset(path, terms, base, omen_prob=omen_prob,
+        rulesets.write_ruleset(path, terms, base, omen_prob=omen_prob, omen=rng.choice(OMEN_MODELS),
                                omen_keyspace=[(0, 1), (1, 3), (2, 3)], uuid='11111111-2222-3333-4444-%012d' % rng.randint(0, 10 ** 11))
         pcfg = ptq.load_pcfg(path)
         probs = [it['prob'] for it, _ in ptq.run_history(pcfg, [], with_queue=False)['sessions'][0]['ev']]
-        if len(set(probs)) == len(probs) and len(probs) <= 14:
+        if len(set(probs)) == len(probs) and len(probs) <= 16:
             return {'terminals': terms, 'base': base, 'omen_prob': omen_prob}
     raise core.MachineryError('could not build a tie-free ruleset')
 
